@@ -160,7 +160,7 @@ func dataSinkArgs(cc *ssa.CallCommon) ([]int, string) {
 			return all(0), recv + "." + cc.Method.Name()
 		}
 	}
-	if strings.HasPrefix(n, "midix.(*MIDIWriter).") {
+	if strings.HasPrefix(n, "midix.MIDIWriter.") {
 		return all(1), n
 	}
 	return nil, ""
@@ -898,7 +898,7 @@ func ruleConc(c *Ctx) {
 	for _, g := range gos {
 		c.site(1)
 		host := fname(g.Parent())
-		if host != "input/ast.(*IterVisitor).All" {
+		if host != "input/ast.IterVisitor.All" {
 			c.bad("go|"+host, c.pos(g.Pos()), host, "goroutine outside the reviewed AST iterator: its interleaving with the rest of the program is unreviewed")
 			continue
 		}
@@ -949,15 +949,15 @@ func ruleConc(c *Ctx) {
 	// sends only in IterVisitor.send, called only by IterVisitor's Visit methods
 	for _, s := range sends {
 		host := fname(s.Parent())
-		c.check(host == "input/ast.(*IterVisitor).send", "send|"+host, c.pos(s.Pos()), host, "send inside the producer's helper", "channel send outside the reviewed producer: a second sender makes the order of received nodes depend on scheduling")
+		c.check(host == "input/ast.IterVisitor.send", "send|"+host, c.pos(s.Pos()), host, "send inside the producer's helper", "channel send outside the reviewed producer: a second sender makes the order of received nodes depend on scheduling")
 	}
-	if sf := c.fn("input/ast", "(*IterVisitor).send"); sf != nil {
+	if sf := c.fn("input/ast", "IterVisitor.send"); sf != nil {
 		cg := c.callGraph()
 		bad := []string{}
 		if n := cg.Nodes[sf]; n != nil {
 			for _, in := range n.In {
 				cn := fname(in.Caller.Func)
-				if !strings.HasPrefix(cn, "input/ast.(*IterVisitor).Visit") {
+				if !strings.HasPrefix(cn, "input/ast.IterVisitor.Visit") {
 					bad = append(bad, cn)
 				}
 			}
